@@ -6,9 +6,9 @@
        harness's I line.
    S : "S:ok" when
        (a) the vertices lie on the exact curve in order: the harness proposes a parameter for every
-           vertex, the driver checks 0 < t1 < ... < tn = 1 and |C(t_k) - V_k| <= 1e-8 of the
-           coordinate scale (integer de Casteljau on a grid of 2^-40 of the scale, parameters on
-           2^-36; for arcs |M^-1 (V - c)|^2 = 1 within 1e-7 and the uniform parameter step);
+           vertex, the driver checks 0 < t1 < ... < tn = 1 and |C(t_k) - V_k| <= 1e-7 of the
+           coordinate scale (integer de Casteljau on a grid of 2^-34 of the scale, parameters on
+           2^-30; for arcs |M^-1 (V - c)|^2 = 1 within 1e-7 and the uniform parameter step);
        (b) for the classes the property lists, the exact curve stays within K*tol of the chord of its
            own piece: points of the exact curve (polynomials: parameters on a 2^-24 grid inside the
            piece; ellipses: rational points ((1-u^2)/(1+u^2), 2u/(1+u^2)) turned by quarter turns,
@@ -92,7 +92,8 @@ let dev_radius gd k tol : z =
   let (m, e) = tol in
   (* ceil (k * m * 2^(e - gd)) + 4 ; e - gd = 13 - bitlen m <= 12 *)
   let sh = e - gd in
-  let v = if sh >= 0 then (k * m) lsl sh else ((k * (m asr (- sh - 8))) asr 8) + k + 1 in
+  if sh >= 0 && bitlen (k * m) + sh > 60 then failwith "radius overflow";
+  let v = if sh >= 0 then (k * m) lsl sh else (k * m + (1 lsl (- sh)) - 1) asr (- sh) in
   zi (v + 4)
 
 (* ------------------------------------------------------------------ polynomial calls *)
@@ -120,25 +121,28 @@ let dy_of_q (x : q) : int * int =
   let x = qred x in
   let rec log2p p k = match p with XH -> k | XO r -> log2p r (k + 1) | XI _ -> failwith "not dyadic" in
   let e = - (log2p x.qden 0) in
-  (* numerator may exceed 62 bits only for absurd inputs *)
   let rec zbits = function XH -> 1 | XO r | XI r -> 1 + zbits r in
-  (match x.qnum with Z0 -> () | Zpos p | Zneg p -> if zbits p > 61 then failwith "numerator too long");
-  let m = int_of_z x.qnum in
+  let nb = match x.qnum with Z0 -> 0 | Zpos p | Zneg p -> zbits p in
+  (* longer than 60 bits (sums of doubles of very different magnitude): drop the low bits; every use
+     below rounds to a much coarser grid anyway *)
+  let drop = max 0 (nb - 60) in
+  let num = if drop = 0 then x.qnum else Z.shiftr x.qnum (zi drop) in
+  let m = int_of_z num and e = e + drop in
   if m = 0 then (0, 0) else
   let rec strip m e = if m land 1 = 0 then strip (m asr 1) (e + 1) else (m, e) in
   strip m e
 
 let zpt_on g ((x, y) : (int * int) * (int * int)) : zpt = (zgrid g x, zgrid g y)
 
-let check_poly_section kind tol (s : section) (vs : ((int * int) * (int * int)) list) (ts : int list) : unit =
+let check_poly_section budget kind tol (s : section) (vs : ((int * int) * (int * int)) list) (ts : int list) : unit =
   let nv = List.length vs in
   if nv = 0 then () else
   let ctrl_q = sec_ctrl s in
   let ctrl = List.map (fun p -> (dy_of_q (fst p), dy_of_q (snd p))) ctrl_q in
   let all_dy = List.concat_map (fun (x, y) -> [x; y]) (ctrl @ vs) in
   let scale_log = List.fold_left (fun a d -> if fst d = 0 then a else max a (ilog2 d)) (-1000) all_dy in
-  let gc = if scale_log = -1000 then -60 else scale_log - 40 in
-  let eps_on = zi 12000 in   (* 1e-8 of the scale, in units of 2^-40 (.. 2^-41) of it *)
+  let gc = if scale_log = -1000 then -60 else scale_log - 34 in
+  let eps_on = zi 1800 in   (* 1e-7 of the scale, in units of 2^-34 (.. 2^-35) of it *)
   match s with
   | SLine (_, _) ->
       (match vs, List.rev ctrl with
@@ -154,15 +158,15 @@ let check_poly_section kind tol (s : section) (vs : ((int * int) * (int * int)) 
       let rec incr prev = function [] -> true | t :: r -> prev < t && incr t r in
       if not (incr 0 ts) then raise (Sfail (kind ^ ":order vertex parameters are not increasing"));
       if List.nth ts (nv - 1) <> one60 then raise (Sfail (kind ^ ":order last parameter is not 1"));
-      (* on the curve: grid 2^gc, parameters rounded to 2^-36 *)
+      (* on the curve: grid 2^gc, parameters rounded to 2^-30 *)
       let cz = List.map (zpt_on gc) ctrl in
-      let den36 = zpow2 36 in
-      let stride = max 1 ((nv + 299) / 300) in
+      let den36 = zpow2 30 in
+      let stride = max 1 ((nv + budget - 1) / budget) in
       List.iteri (fun i (t, v) ->
         if i mod stride = 0 || i = nv - 1 then begin
-          let tn = (t + (1 lsl 23)) asr 24 in
+          let tn = (t + (1 lsl 29)) asr 30 in
           let (px, py) = decasteljauZ den36 (zi tn) cz in
-          let sh = zi (36 * deg) in
+          let sh = zi (30 * deg) in
           let p = if deg = 0 then (px, py) else (round_shift sh px, round_shift sh py) in
           let vz = zpt_on gc v in
           if not (seg_closer_than p vz vz eps_on) then
@@ -171,11 +175,11 @@ let check_poly_section kind tol (s : section) (vs : ((int * int) * (int * int)) 
       (* the Q evaluator agrees with the integer one (first vertex, cheap tie of the two) *)
       (match ts with
        | t :: _ when deg >= 1 ->
-           let tn = (t + (1 lsl 23)) asr 24 in
+           let tn = (t + (1 lsl 29)) asr 30 in
            let tq = qdiv (qi tn) (inject_Z den36) in
            let pq = decasteljau tq (List.map (fun (x, y) -> (inject_Z x, inject_Z y)) cz) in
            let (px, _) = decasteljauZ den36 (zi tn) cz in
-           let lhs = qmult (fst pq) (inject_Z (zpow2 (36 * deg))) in
+           let lhs = qmult (fst pq) (inject_Z (zpow2 (30 * deg))) in
            if not (qeq_bool lhs (inject_Z px)) then raise (Sfail (kind ^ ":internal integer and rational de Casteljau differ"))
        | _ -> ());
       (* deviation, only for control directions within a quarter turn *)
@@ -184,13 +188,15 @@ let check_poly_section kind tol (s : section) (vs : ((int * int) * (int * int)) 
         let r = dev_radius gd (k_for kind (List.length ctrl)) tol in
         let cd = List.map (zpt_on gd) ctrl in
         let vd = List.map (zpt_on gd) vs in
-        let m = let b = 256 / nv in if b >= 64 then 64 else if b >= 32 then 32 else if b >= 16 then 16
+        let m = let b = budget / nv in if b >= 64 then 64 else if b >= 32 then 32 else if b >= 16 then 16
                 else if b >= 8 then 8 else if b >= 4 then 4 else 2 in
+        let pstride = max 1 ((nv + budget - 1) / budget) in
         let den24 = zpow2 24 in
         let sh = zi (24 * deg) in
         let rec go i tprev vprev tl vl =
           match tl, vl with
           | t :: tr, v :: vr ->
+              if i mod pstride = 0 || tr = [] then
               for j = 1 to m - 1 do
                 (* a parameter on the 2^-24 grid inside the piece *)
                 let tt60 = tprev + (t - tprev) / m * j in
@@ -209,6 +215,7 @@ let check_poly_section kind tol (s : section) (vs : ((int * int) * (int * int)) 
       end
 
 let do_poly id (t : toks) =
+  let budget = next_int t in
   let tol = next_dy t in
   let pre = next_dpt t in
   let prectl = next_dpt t in
@@ -248,7 +255,7 @@ let do_poly id (t : toks) =
       out id "M" (Printf.sprintf "n0=%s E=%s C=%s" (if n0 then "1" else "0") (pt_grid40 st'.cur) (pt_grid40 st'.lctl));
       (try
         if List.length secs <> List.length secdata then raise (Sfail (kind ^ ":sections number of sections differs from the model"));
-        List.iter2 (fun s (vs, ts) -> check_poly_section kind tol s vs ts) secs secdata;
+        List.iter2 (fun s (vs, ts) -> check_poly_section budget kind tol s vs ts) secs secdata;
         if List.exists (fun (vs, _) -> vs = []) secdata then out id "S" "S:skip a section without usable vertices (see P)"
         else out id "S" "S:ok"
       with Sfail m -> out id "S" ("S:FAIL " ^ m))
@@ -269,8 +276,9 @@ let do_arc id (t : toks) =
   let nq = next_int t in
   let nv = next_int t in
   let vs = List.init nv (fun _ -> next_dpt t) in
-  let nsamp = next_int t in   (* per chord *)
-  let samples = List.init (max 0 (nv - 1)) (fun _ -> List.init nsamp (fun _ -> let q = next_int t in let a = hex_int (next t) in (q, a))) in
+  let bb = next_int t in
+  let samples = List.init (max 0 (nv - 1)) (fun _ ->
+    let ns = next_int t in List.init ns (fun _ -> let q = next_int t in let a = hex_int (next t) in (q, a))) in
   out id "M" (Printf.sprintf "arc %d" nv);
   if nv < 2 then out id "S" "S:skip no chord" else
   try
@@ -278,7 +286,7 @@ let do_arc id (t : toks) =
     let all = [m11; m12; m21; m22; cx; cy] @ List.concat_map (fun (x, y) -> [x; y]) vs in
     let scale_log = List.fold_left (fun a d -> if fst d = 0 then a else max a (ilog2 d)) (-1000) all in
     (* ---- (a), (b) on a fine grid *)
-    let gc = scale_log - 40 in
+    let gc = scale_log - 34 in
     let f11 = zgrid gc m11 and f12 = zgrid gc m12 and f21 = zgrid gc m21 and f22 = zgrid gc m22 in
     let fcx = zgrid gc cx and fcy = zgrid gc cy in
     let det = zsub' (zmul f11 f22) (zmul f12 f21) in
@@ -287,7 +295,7 @@ let do_arc id (t : toks) =
     let wof g11 g12 g21 g22 gcx gcy (vx, vy) =
       let x = zsub' vx gcx and y = zsub' vy gcy in
       (zsub' (zmul g22 x) (zmul g12 y), zsub' (zmul g11 y) (zmul g21 x)) in
-    let stride = max 1 ((nv + 299) / 300) in
+    let stride = max 1 ((nv + 95) / 96) in
     let ten7 = zi 10000000 in
     let cs30 = zgrid (-30) cstep and sn30 = zgrid (-30) sstep in
     let p30 = zpow2 30 in
@@ -310,14 +318,14 @@ let do_arc id (t : toks) =
         prev := Some (i, w)
       end) vs;
     (* ---- (c) deviation on the working grid *)
-    let gd = dev_grid tol in
+    let gd = min (dev_grid tol) (scale_log - 30) in
     let kk = if label = "fillet" then 7 else 4 in
     let r = dev_radius gd kk tol in
     let d11 = zgrid gd m11 and d12 = zgrid gd m12 and d21 = zgrid gd m21 and d22 = zgrid gd m22 in
     let dcx = zgrid gd cx and dcy = zgrid gd cy in
     let ddet = zsub' (zmul d11 d22) (zmul d12 d21) in
     let vd = List.map (zpt_on gd) vs in
-    let b16 = zpow2 16 in
+    let b16 = zpow2 bb in
     let z64 = zi 64 in
     let rec chords i vl sl =
       match vl, sl with
@@ -338,7 +346,7 @@ let do_arc id (t : toks) =
             end;
             let xh = ell_map_h dcx dcy d11 d12 d21 d22 ph in
             if not (h_seg_closer xh va vb r) then
-              raise (Sfail (Printf.sprintf "%s:deviation chord %d sample %d/%d farther than K*tol from the chord" label i (j + 1) (nsamp + 1))))
+              raise (Sfail (Printf.sprintf "%s:deviation chord %d sample %d/%d farther than K*tol from the chord" label i (j + 1) (List.length ss + 1))))
             ss;
           chords (i + 1) vr sr
       | _ -> () in
